@@ -4,6 +4,7 @@ package gtree
 
 import (
 	"bufio"
+	"bytes"
 	"context"
 	"io"
 	"strings"
@@ -176,6 +177,7 @@ func (rg *rootGeneratorPipeline) worker(ctx context.Context, wg *sync.WaitGroup,
 				nodes   = newStack()
 				counter = newCounter()
 			)
+			sc.Split(scanBlockLines)
 			for sc.Scan() {
 				currentNode, err := rg.nodeGenerator.generate(sc.Text(), counter.next())
 				if err != nil {
@@ -219,4 +221,20 @@ func (rg *rootGeneratorPipeline) worker(ctx context.Context, wg *sync.WaitGroup,
 			}
 		}
 	}
+}
+
+// scanBlockLines splits a block made by split() back into its rows. The splitter has already removed each row's line
+// terminator (including one trailing CR), so only the "\n" it added is dropped here: bufio.ScanLines would strip a
+// second CR and change the row compared with the non-massive mode.
+func scanBlockLines(data []byte, atEOF bool) (advance int, token []byte, err error) {
+	if atEOF && len(data) == 0 {
+		return 0, nil, nil
+	}
+	if i := bytes.IndexByte(data, '\n'); i >= 0 {
+		return i + 1, data[0:i], nil
+	}
+	if atEOF {
+		return len(data), data, nil
+	}
+	return 0, nil, nil
 }
